@@ -96,6 +96,51 @@ def check(an, rep, tier):
                         'expected %d' % (len(rv.items), 2 * d)
                 rep.add('S-ret', q, 'return path %d of %s' % (j, r.tag()),
                         st, detail)
+        elif q == 'act_one.interface' and \
+                r.variant.get('norm') == ('lit', 'natural') and \
+                'P' not in r.variant and 'i' not in r.variant:
+            # natural normalisation: every partial sum over a mode index is
+            # divided by the size of that very mode, so each interface vector
+            # is an average (term count 1)
+            for j, rv in enumerate(r.returns):
+                if rv.k != 'list' or rv.items is None:
+                    continue
+                for k, x in enumerate(rv.items):
+                    if x.k != 'arr' or x.cnt is None:
+                        rep.unknown('U-count', q, 'interface vector %d of %s'
+                                    % (k, r.tag()), 'term count not tracked')
+                        continue
+                    num, den = x.cnt
+                    ok = same(num, den)
+                    bad = definitely_differ(num, den)
+                    rep.add('U-count', q, 'interface vector %d of %s'
+                            % (k, r.tag()),
+                            'ok' if ok else ('violation' if bad else 'unknown'),
+                            '' if ok else 'with norm="natural" the vector sums '
+                            '%r terms over the mode indices but is divided by '
+                            '%r: each partial sum must be divided by the size '
+                            'of the mode it runs over' % (num, den))
+        elif q in ('act_one.mean', 'act_one.sum') and 'P' not in r.variant:
+            # mean: every mode sum is divided by its own size (count 1);
+            # sum: all prod(n) terms, undivided
+            rv = r.result
+            want = Poly.const(1)
+            if q == 'act_one.sum':
+                for k in range(d):
+                    want = want * Poly.sym('Y.n%d' % k)
+            if rv.k != 'float' or rv.cnt is None:
+                rep.unknown('U-count', q, 'term count of the result (d=%d)'
+                            % d, 'term count not tracked')
+            else:
+                num, den = rv.cnt
+                ok = same(num, den * want)
+                bad = definitely_differ(num, den * want)
+                rep.add('U-count', q, 'term count of the result (d=%d)' % d,
+                        'ok' if ok else ('violation' if bad else 'unknown'),
+                        '' if ok else 'the result adds %r terms divided by %r; '
+                        'expected a net count of %r (mean: each mode sum '
+                        'divided by its own size; sum: all entries, undivided)'
+                        % (num, den, want))
         elif q == 'transformation.full':
             for j, rv in enumerate(r.returns):
                 modes = modes_from('Y.n')(r)
@@ -178,6 +223,7 @@ def check(an, rep, tier):
                 if f.module.name in ('act_one', 'act_two', 'data', 'props')}
     _RP.check_param_forwarding(prog, rep, callers=_callers)
     rep.floor('S-ret', 20, 'algebra results')
+    rep.floor('U-count', 16, 'natural-norm interface vectors, mean, sum')
     rep.floor('S-concat', 5, 'block concatenations of add')
     rep.floor('S-einsum', 3, 'einsum sites')
     rep.floor('S-matmul', 3, 'chain contractions')
